@@ -742,6 +742,15 @@ def replay(witness):
 # workload
 # --------------------------------------------------------------------------------------------
 def make_case(rng, code, tier_caps, mathml=None, depths=(1, 2, 2, 3)):
+    if mathml is None and rng.random() < 0.03:
+        # one long flat row (a chain of 40-90 terms, as in a long derivation line): cursor routing has to find cells far from both ends
+        op = rng.choice(["=", "≤", "+", ",", "<", "→"])
+        term = rng.choice([lambda: gen.mi(rng.choice("ABCDEFGHKMNPQRST")), lambda: gen.mi(rng.choice("ABCDEFGHKMNPQRST")), lambda: gen.mi(rng.choice("abcxyzuvw")),
+                           lambda: gen.mn(str(rng.randint(1, 99)))])
+        kids = [term()]
+        for _ in range(rng.randint(50, 95)):
+            kids += [gen.mo(op), term()]
+        mathml = gen.math(gen.mrow(*kids)).xml() if rng.random() < 0.5 else gen.math(*kids).xml()
     if mathml is None:
         tb = gen.Textbook(rng, max_depth=rng.choice(depths), p_ident=rng.choice([0.3, 0.6, 0.8]))
         tree, _ = tb.expression()
